@@ -1805,7 +1805,7 @@ uint32_t bufr_cvt_fval_to_i32(int code, BufrValueEncoding *be, float fval)
    uint64_t  maxval;
    uint64_t  missing;
    float     val_pow;
-   int       ival_pow;
+   int64_t   ival_pow;
    double    val1;
    float     fmin, fmax;
    int       underflow=0, overflow=0;
@@ -1827,7 +1827,9 @@ uint32_t bufr_cvt_fval_to_i32(int code, BufrValueEncoding *be, float fval)
  * compute value range
  */
    maxval = (1ULL << be->nbits) - 1;
-   ival_pow = val_pow = pow(10.0,(double)be->scale);
+   val_pow = pow(10.0,(double)be->scale);
+/* integer power for the integer part of fval; where it does not fit, fmax < 1 and that part is 0 */
+   ival_pow = (val_pow < 9.0e18) ? (int64_t)val_pow : 0;
    fmin = be->reference / val_pow;
    fmax = ((int64_t)(maxval-1) + be->reference) / val_pow;
 
@@ -2015,7 +2017,7 @@ uint64_t bufr_cvt_dval_to_i64(int code, BufrValueEncoding *be, double fval)
    uint64_t  maxval;
    uint64_t  missing;
    double    val_pow;
-   int       ival_pow;
+   int64_t   ival_pow;
    double    val1;
    double    fmin, fmax;
    int       underflow=0, overflow=0;
@@ -2037,7 +2039,9 @@ uint64_t bufr_cvt_dval_to_i64(int code, BufrValueEncoding *be, double fval)
  * compute value range
  */
    maxval = (1ULL << be->nbits) - 1;
-   ival_pow = val_pow = pow(10.0,(double)be->scale);
+   val_pow = pow(10.0,(double)be->scale);
+/* integer power for the integer part of fval; where it does not fit, fmax < 1 and that part is 0 */
+   ival_pow = (val_pow < 9.0e18) ? (int64_t)val_pow : 0;
    fmin = be->reference / val_pow;
    fmax = ((int64_t)(maxval-1) + be->reference) / val_pow;
 
